@@ -68,10 +68,11 @@ def thr_jobs():
         ("e", 2, 3 * 10**9, 1, 2, 1500000000, False, False),
         ("f", 10, 5 * 2**30, 3, 1, 1789569706, False, False),
         ("g", 1, 2**33, 2, 1, 2**32, True, True),  # bucket smaller than the minimum clip: nothing may ever be recorded
+        ("h", 1, 2**33, 1, 2, 2**32, True, True),  # fps > 1 with a small bucket (partial takes of a second's worth)
     ]
     jobs = []
     for (nm, b, r, m, f, fi, pow2, quick) in cfgs:
-        g = {"bucketS": [b], "refillNs": [r], "minSec": [m], "fps": [f], "fi": [fi]}
+        g = {"bucketS": [b], "refillNs": [r], "minSec": [m], "fps": [f], "fi": [fi], "STEPS": [2]}
         jobs.append({"name": "step_" + nm, "pkg": "throttle", "harness": "throttle", "entry": "ZZ_T_step", "grid": g,
                      "solvers": ["z3-new", "cvc5int", "cvc5"] if pow2 else ["cvc5int", "z3-new"], "timeout": 120,
                      "tier": "" if quick else "thorough"})
@@ -113,10 +114,10 @@ def aux_jobs(faults_only=None):
     for fl in ([1, 0] if faults_only is None else [faults_only]):
         tag = "faults" if fl else "nofaults"
         J(f"step_{tag}", "ZZ_AUX_step", {"N": [1, 2, 3], "CR": [0, 1], "FAULTS": [fl]}, {"N": [1, 2, 3, 4, 5, 6], "CR": [0, 1], "FAULTS": [fl]})
-        g = dict(base); g.update({"K": [6], "CR": [0, 1], "FAULTS": [fl]})
-        gt = dict(base); gt.update({"K": [9], "CR": [0, 1], "FAULTS": [fl]})
+        g = dict(base); g.update({"K": [6], "CR": [0, 1], "FAULTS": [fl], "BAD": [0]})
+        gt = dict(base); gt.update({"K": [9], "CR": [0, 1], "FAULTS": [fl], "BAD": [0]})
         J(f"bmc_{tag}", "ZZ_AUX_bmc", g, gt)
-        g2 = {"fps": [2], "minS": [0], "maxS": [1], "prevS": [0], "T": [2], "K": [8], "CR": [1], "FAULTS": [fl]}
+        g2 = {"fps": [2], "minS": [0], "maxS": [1], "prevS": [0], "T": [2], "K": [8], "CR": [1], "FAULTS": [fl], "BAD": [0]}
         J(f"bmc2_{tag}", "ZZ_AUX_bmc", g2, None, "thorough")
     return jobs
 
@@ -202,6 +203,7 @@ sites = det_job("sites", "ZZ_C15_sites", {}, None)
 sites["stubs"] = SITES_STUB
 sites["native_rewrite"] = ["motion.go:motionDetector.updateBackground=zzStubUpdateBackground", "motion.go:motionDetector.calculateThreshold=zzStubCalcThreshold"]
 c15.append(sites)
+c15.append([j for j in thr_jobs() if j["name"] == "step_a"][0])
 specs["C15"] = {"property": "C15",
     "explanation": "Bounded symbolic verification of the dynamic-threshold code of motion/motion.go with SMT FloatingPoint semantics (RNE; float->uint16 conversion RTZ). Lemmas, each from an arbitrary background state (all background pixels, float32 weights >= 0, frame counters, previous-FFC flag, thresholds symbolic): (update) after updateBackground every interior background pixel is <= the new frame's pixel, equals it after an FFC or on (re)seeding (backgroundFrames 0), weights stay non-negative, every border pixel equals the nearest interior pixel, and for 1- and 2-pixel interiors the returned average is exactly sum/n; (clamp) calculateThreshold yields trunc(avg) limited to [temp-thresh-min, temp-thresh-max] for every avg in [0,65536) and every unset/set combination with min <= max; (sites) with updateBackground and calculateThreshold replaced by recording stubs, Detect changes the threshold only via calculateThreshold applied to the average returned by updateBackground in the same call, never on an FFC-affected frame or with a fixed threshold, and passes the previous-FFC flag; (detect) end-to-end cross-check for 1-pixel interiors. That the background/threshold in force are handed to the recorder at the trigger, and remembered for throttle restarts, is asserted in the C01 and C06 harnesses (labels tagged C15).",
     "assumptions": COMMON_ASSUME + ["weights are non-negative non-NaN float32 (they start at 0 and are only reset to 0 or incremented and capped)", "min <= max when both bounds are set"],
@@ -216,7 +218,11 @@ c13 = [
     {"name": "boson", "pkg": "cmd/thermal-recorder", "harness": "main", "entry": "ZZ_C13_boson", "grid": pshapes, "grid_thorough": pshapes_t, "skip": pskip},
     {"name": "lepton", "pkg": "cmd/thermal-recorder", "harness": "main", "entry": "ZZ_C13_lepton", "grid": pshapes, "grid_thorough": pshapes_t, "skip": pskip,
      "stubs": {L3 + ".ParseTelemetry": "zzStubParseTelemetry"}, "allow_pkgs": [L3]},
-] + mp_jobs()[:3] + [j for j in aux_jobs(1) if j["name"].startswith("bmc_")]
+] + mp_jobs()[:3] + [j for j in aux_jobs(1) if j["name"].startswith("bmc_")] + [
+    {"name": "bmc_badframes", "pkg": "motion", "harness": "motion", "entry": "ZZ_AUX_bmc",
+     "grid": {"fps": [1], "minS": [1], "maxS": [2], "prevS": [1], "T": [1], "K": [6], "CR": [0, 1], "FAULTS": [0], "BAD": [1]},
+     "grid_thorough": {"fps": [1], "minS": [1], "maxS": [2], "prevS": [1], "T": [1], "K": [9], "CR": [0, 1], "FAULTS": [0], "BAD": [1]},
+     "stubs": DETECT_STUB, "noops": LOG_NOOP, "native_rewrite": DETECT_REWRITE}]
 specs["C13"] = {"property": "C13",
     "explanation": "Bounded symbolic verification (SSA->SMT). Parsers: convertRawBosonFrame (cmd/thermal-recorder/boson.go) and the pixel loop of lepton3.ParseRawFrame are executed on arbitrary raw bytes for each shape/edge of the grid into a slot holding arbitrary stale data: the result is a *lepton3.BadFrameErr iff some pixel outside the edge border is zero (little-/big-endian words respectively); otherwise nil and every pixel equals its raw word; Boson telemetry is 'no recent FFC'. Processor: in the MotionProcessor step lemma (shared with C01) the 'bad frame' event - the parser scribbles into the current slot and returns an error - is shown to return the error, write nothing to any sink, never call the detector, close a motion recording in progress with exactly one stop, leave the ring phase unchanged (so the scribbled slot is the one the next frame overwrites) and keep the invariant; BMC jobs with bad frames from the real constructor (incl. continuous/test sinks) cross-check.",
     "assumptions": COMMON_ASSUME + ["Lepton telemetry decoding (lepton3.ParseTelemetry: encoding/binary.Read via reflection) is stubbed to succeed; natively the real one runs"],
